@@ -353,9 +353,23 @@ Section Rel.
       eapply rel_bind; [exact IH|]. intros xs xs' Hxs. apply rel_ret. auto.
     - eapply rel_bind; [exact IH|]. intros xs xs' Hxs. apply rel_ret. auto.
   Qed.
+  Lemma rel_with_tc_to A (RA : A -> A -> Prop) v f f' :
+    Rel RA f f' -> Rel RA (with_tc_to v f) (with_tc_to v f').
+  Proof.
+    intros Hf d d' s s' Hd Hs. unfold with_tc_to.
+    rewrite <- (f_tc F s s' Hs).
+    destruct (Hf d d' _ _ Hd (f_set_tc F s s' v Hs)) as [Ho Hs'].
+    destruct (f d (set_tc v s)) as [o t], (f' d' (set_tc v s')) as [o' t'].
+    cbn [fst snd] in *.
+    destruct o, o'; cbn in Ho; try contradiction; cbn; (split; [exact Ho|]); try apply (f_set_tc F); exact Hs'.
+  Qed.
   Lemma rel_projection A (RA : A -> A -> Prop) n f f' :
     Rel RA f f' -> Rel (Forall2 RA) (projection n f) (projection n f').
-  Proof. intro. apply rel_with_projection_tc. apply rel_comma_sep. assumption. Qed.
+  Proof.
+    intros Hf d d' s s' Hd Hs. unfold projection. rewrite <- (f_tc F s s' Hs).
+    apply (rel_with_projection_tc _ _ (comma_sep n (with_tc_to (tc s) f)) (comma_sep n (with_tc_to (tc s) f'))); [|exact Hd|exact Hs].
+    apply rel_comma_sep. apply rel_with_tc_to. exact Hf.
+  Qed.
 
   Lemma rel_skip_semis n : Rel eq (skip_semis n) (skip_semis n).
   Proof.
@@ -417,6 +431,7 @@ Section Rel.
   | R_guard A RA p p' : IfaceRC A RA p p' -> IfaceRC A RA (guard p) (guard p')
   | R_with_state A RA st f f' : IfaceRC A RA f f' -> IfaceRC A RA (with_state st f) (with_state st f')
   | R_with_projection_tc A RA f f' : IfaceRC A RA f f' -> IfaceRC A RA (with_projection_tc f) (with_projection_tc f')
+  | R_projection A RA n f f' : IfaceRC A RA f f' -> IfaceRC _ (Forall2 RA) (projection n f) (projection n f')
   | R_is_end : IfaceRC _ eq is_end is_end
   | R_comma_sep A RA n f f' : IfaceRC A RA f f' -> IfaceRC _ (Forall2 RA) (comma_sep n f) (comma_sep n f')
   | R_comma_sep0 A RA n f f' t : cmp_ok t = true -> IfaceRC A RA f f' -> IfaceRC _ (Forall2 RA) (comma_sep0 n f t) (comma_sep0 n f' t)
@@ -444,6 +459,7 @@ Section Rel.
     - apply rel_guard; assumption.
     - apply rel_with_state; assumption.
     - apply rel_with_projection_tc; assumption.
+    - apply rel_projection; assumption.
     - apply rel_is_end.
     - apply rel_comma_sep; assumption.
     - apply rel_comma_sep0; assumption.
